@@ -56,7 +56,7 @@ func genC19Sim(seed uint64, tier string) *world.Scenario {
 }
 
 var c19Modes = []string{"ok", "ok-trailing-newlines", "exit3-output", "exit1-silent", "killed-by-signal", "not-executable", "bad-format", "missing", "path-through-a-file", "symlink-loop",
-	"sleeper", "sleeper-ignores-sigterm", "grandchild-holds-stdout", "grandchild-and-sleeper", "empty-output", "garbage-output", "huge-output", "stderr-flood"}
+	"text-file-busy", "sleeper", "sleeper-ignores-sigterm", "grandchild-holds-stdout", "grandchild-and-sleeper", "empty-output", "garbage-output", "huge-output", "stderr-flood"}
 
 var c19Timeouts = []time.Duration{200 * time.Millisecond, 500 * time.Millisecond, time.Second, 2 * time.Second}
 
@@ -106,6 +106,9 @@ func runC19RT(t *testing.T, sc *world.Scenario) *check.Result {
 		body = "\x7fELF this is not an executable\n"
 	case "missing", "path-through-a-file", "symlink-loop":
 		body = ""
+	case "text-file-busy":
+		// somebody holds the script open for writing (an upgrade in progress, an editor): it cannot be started
+		body = "#!/bin/sh\necho 1\n"
 	case "sleeper":
 		body = "#!/bin/sh\nsleep " + long + "\necho 1\n"
 	case "sleeper-ignores-sigterm":
@@ -144,6 +147,14 @@ func runC19RT(t *testing.T, sc *world.Scenario) *check.Result {
 	type outcome struct {
 		out string
 		err error
+	}
+	if mode == "text-file-busy" {
+		wf, err := os.OpenFile(exe, os.O_WRONLY, 0)
+		if err != nil {
+			res.Harness = err.Error()
+			return res
+		}
+		defer wf.Close()
 	}
 	done := make(chan outcome, 1)
 	start := time.Now()
